@@ -55,7 +55,7 @@ def spec_cfg(ctx: Ctx) -> dict:
 
 
 def structure(b) -> tuple:
-    return (tuple((c["kind"], len(c["times"]) - 2) for c in b["hist"]), b["K"], b["burn"]["ts"] > 0)
+    return (tuple((c["kind"], len(c["times"]) - 2) for c in b["hist"]), b["K"], b["burn"]["kind"] != "none")
 
 
 # ------------------------------------------------------------------ (a) exact law
@@ -72,7 +72,7 @@ def exact_one(b, method: str, tau: float, rng: random.Random, tag: str = "exact-
     emb = K.Embed(rng, tau, ALPHA)
     dyn = K.ExactLaw(g * ALPHA * emb.u, method=method)
     events = []
-    if burn["ts"] > 0:
+    if burn["kind"] != "none":
         events.append(emb.thrust_event(burn["kind"], a, burn["ts"] * tau, burn["te"] * tau))
     kk = b["K"]
     x = emb.batch(b["X0"])
@@ -113,7 +113,11 @@ def exact_one(b, method: str, tau: float, rng: random.Random, tag: str = "exact-
 
 def exact_replay(ctx: Ctx, behs, rng: random.Random, tag: str = "exact-law") -> dict:
     stats = {"behaviours": 0, "outputs": 0, "violations": 0, "by_signature": {}}
+    hangs = 0
     for i, b in enumerate(behs):
+        if hangs >= 3:       # a tree on which propagation does not terminate: stop, every further case costs 20 s
+            stats["aborted_after_hangs"] = True
+            break
         methods = ("RK45", "DOP853") if not ctx.quick else (("RK45", "DOP853")[i % 2],)
         for method in methods:
             tau = TAUS[(i // 2) % len(TAUS)]
@@ -122,6 +126,7 @@ def exact_replay(ctx: Ctx, behs, rng: random.Random, tag: str = "exact-law") -> 
                 bad, n_out = exact_one(b, method, tau, random.Random(seed), tag)
             except tlc.MachineryError:
                 raise
+            K.flush_events()
             stats["behaviours"] += 1
             stats["outputs"] += n_out
             ctx.case((tag, tuple(b["law"]), b["hor"], b["K"], b["burn"]["ts"], b["burn"]["te"], tuple(tuple(c["times"]) for c in b["hist"]),
@@ -133,6 +138,7 @@ def exact_replay(ctx: Ctx, behs, rng: random.Random, tag: str = "exact-law") -> 
                 sig, what, detail = bad
                 stats["violations"] += 1
                 stats["by_signature"][sig] = stats["by_signature"].get(sig, 0) + 1
+                hangs += "does-not-terminate" in sig
                 ctx.violation(sig, "(a) exact law through the real Celestial.propagate/propagateBulk: " + what,
                               {"part": "exact", "tag": tag, "behaviour": b, "method": method, "tau_s": tau, "seed": seed, **detail})
     ctx.traces_validated += stats["behaviours"]
@@ -182,6 +188,7 @@ def real_one(ctx: Ctx, b, model: str, method: str, tight: bool, tick: float, rng
     from resonaate.physics.time.stardate import ScenarioTime
     from functools import partial
     kk = b["K"]
+    patience = 300.0 if ctx.quick else 1800.0      # generous: the machine may be loaded; quick durations take seconds
     orbits = [random_orbit(rng) for _ in range(kk)]
     x0 = np.stack([o[1] for o in orbits], axis=1)
     jd0 = 2458484.5 + rng.randrange(0, 700) + rng.randrange(0, 86400) / 86400.0
@@ -192,7 +199,7 @@ def real_one(ctx: Ctx, b, model: str, method: str, tight: bool, tick: float, rng
     burn_dir /= np.linalg.norm(burn_dir)
 
     def events(offset=0.0):
-        if b["burn"]["ts"] <= 0:
+        if b["burn"]["kind"] == "none":
             return []
         return [ScheduledFiniteBurn(ScenarioTime(b["burn"]["ts"] * tick + offset), ScenarioTime(1.0e9),
                                     partial(eciBurn, acc_vector=BURN_ACC * burn_dir), 1)]
@@ -222,7 +229,7 @@ def real_one(ctx: Ctx, b, model: str, method: str, tight: bool, tick: float, rng
     for ci, call in enumerate(b["hist"]):
         times = [t * tick for t in call["times"]]
         try:
-            with guard(300.0):
+            with guard(patience):
                 if call["kind"] == "single":
                     res = dyn.propagate(times[0], times[1], x[:, 0].copy() if kk == 1 else x.copy(), scheduled_events=events())
                     outs = [np.asarray(res, dtype=float).reshape(6, kk)]
@@ -230,7 +237,7 @@ def real_one(ctx: Ctx, b, model: str, method: str, tight: bool, tick: float, rng
                     res = dyn.propagateBulk(times, x.copy(), scheduled_events=events())
                     outs = [np.asarray(res[:, :, j], dtype=float) for j in range(res.shape[2])]
         except Hang:
-            fail(f"real:{model}:propagate-does-not-terminate", f"{call['kind']} call {times} did not return within 300 s", {"call": ci})
+            fail(f"real:{model}:propagate-does-not-terminate", f"{call['kind']} call {times} did not return within {patience:g} s", {"call": ci})
             return
         except tlc.MachineryError:
             raise
@@ -354,6 +361,10 @@ def real_replay(ctx: Ctx, behs, rng: random.Random):
         cfgname = f"{model}/{method}/{'tight' if tight else 'shipped'}"
         stats["by_config"][cfgname] = stats["by_config"].get(cfgname, 0) + 1
         real_one(ctx, b, model, method, tight, tick, random.Random(rng.getrandbits(32)), stats, traces)
+        K.flush_events()
+        if any("does-not-terminate" in sig for sig in stats["by_signature"]):
+            stats["aborted_after_hang"] = True      # every further call would cost the full patience
+            break
     return stats, traces
 
 
